@@ -6,6 +6,7 @@ use std::path::PathBuf;
 
 pub mod c01;
 pub mod c02;
+pub mod c03;
 pub mod c04;
 pub mod c05;
 pub mod c06;
@@ -19,6 +20,7 @@ pub type RunFn = fn(Ctx, Option<PathBuf>) -> i32;
 pub const REGISTRY: &[(&str, RunFn)] = &[
     ("C01", c01::run),
     ("C02", c02::run),
+    ("C03", c03::run),
     ("C04", c04::run),
     ("C05", c05::run),
     ("C06", c06::run),
